@@ -167,7 +167,11 @@ impl Value {
 
     /// All values other than `False` and `Null` should be considered true.
     pub fn is_true(&self) -> bool {
-        !matches!(self, Self::False | Self::Null)
+        match self {
+            Self::False | Self::Null => false,
+            Self::Paren(v) => v.is_true(),
+            _ => true,
+        }
     }
 
     /// Return true if this value is null.
